@@ -81,6 +81,11 @@ ASSUMPTIONS = [
     "GroupValueResponse with a generated payload (as the repository's own tests do).",
     "decode(encode(v)) is compared for v taken from the decode image after a JSON cycle, so every v is "
     "representable; equality is exact apart from NaN == NaN and U+FFFD == '?'.",
+    "Payload forms: a 6-bit payload v is offered both as the bare int v and as [v] (the two spellings the tool "
+    "documents), octet arrays as the list of their octets; every form of one payload must give the same value or "
+    "the same kind of rejection. The payload handed back to the decoder is the encoder's result verbatim after "
+    "asdict -> json.dumps -> json.loads, again in every form. For a real value_type and a non-empty payload only "
+    "ConversionError / CouldNotParseTelegram count as 'payload not in the image'; ValueError does not.",
 ]
 
 G = "1/2/3"
@@ -182,7 +187,9 @@ def _listify(x: Any) -> Any:
 
 # ----------------------------------------------------------------------------- (b) decode / encode inversion
 
-DECLARED = (ConversionError, CouldNotParseTelegram, ValueError)
+# what decode_dpt_payload may raise for a payload it does not accept (ValueError is documented for an
+# unknown value_type and an *empty* payload only - neither occurs here, so it is not in this list)
+PAYLOAD_REJECTED = (ConversionError, CouldNotParseTelegram)
 
 
 def dpt_ids(dpt: type[DPTBase]) -> list[str]:
@@ -192,35 +199,76 @@ def dpt_ids(dpt: type[DPTBase]) -> list[str]:
     return ids
 
 
+def payload_forms(dpt: type[DPTBase], payload: int | list[int]) -> list[int | list[int]]:
+    """Every documented spelling of one raw payload: "list of byte integers, or a single integer for
+    6-bit DPTs" - so a 6-bit value v may come as the bare int v (what encode_dpt_payload emits) or as [v];
+    an octet array only as the list of its octets.  The first form is the one offered."""
+    if dpt.payload_type is DPTBinary:
+        v = payload if isinstance(payload, int) else payload[0]
+        other: int | list[int] = [v] if isinstance(payload, int) else v
+        return [payload, other]
+    return [payload]
+
+
+def decode_all_forms(ctx, dpt: type[DPTBase], vt: str, payload: int | list[int], inp: dict, stage: str) -> tuple[bool, Any]:
+    """Decode `payload` in every documented form, each as an MCP client would (tool result ->
+    asdict -> json.dumps -> json.loads).  Returns (decoded?, value).  The forms have to agree: the same
+    value from each, or a declared payload rejection from each."""
+    outcomes: list[tuple[Any, str, Any]] = []  # (form, "value" | "rejected" | "raised", value / text)
+    for form in payload_forms(dpt, payload):
+        try:
+            res = drive(decode_dpt_payload(DecodeDptPayloadInput(payload=form, value_type=vt)))
+        except PAYLOAD_REJECTED as e:
+            outcomes.append((form, "rejected", f"{type(e).__name__}: {e}"[:200]))
+            continue
+        except Exception as e:  # noqa: BLE001 - incl. ValueError: value_type is a real DPT, the payload not empty
+            outcomes.append((form, "raised", f"{exc_site(e)}: {e}"[:200]))
+            continue
+        d = check_result(ctx, "decode_dpt_payload", res, {**inp, "form": form})
+        if d is None:
+            return False, None
+        try:
+            outcomes.append((form, "value", json.loads(json.dumps(d))["value"]))
+        except Exception:  # noqa: BLE001 - already reported by check_result
+            return False, None
+    kinds = {o[1] for o in outcomes}
+    if kinds == {"value"} and all(same(o[2], outcomes[0][2]) for o in outcomes):
+        return True, outcomes[0][2]
+    if kinds == {"rejected"}:
+        return False, None
+    if len(outcomes) > 1 and (len(kinds) > 1 or kinds == {"value"}):
+        ctx.fail(
+            "C45:payload-forms-disagree:decode_dpt_payload",
+            inp,
+            f"{dpt.__name__} ({stage}): equivalent payload forms are read differently: " + "; ".join(f"{o[0]!r} -> {o[1]} {o[2]!r}" for o in outcomes),
+        )
+    else:  # an undeclared exception for every form
+        ctx.fail(f"C45:decode-exc:{outcomes[0][2].split(': ')[0]}", inp, f"{dpt.__name__} ({stage}): " + "; ".join(f"{o[0]!r} -> {o[2]}" for o in outcomes))
+    # carry on with a decoded value if any form gave one, so the inversion is still examined
+    for o in outcomes:
+        if o[1] == "value":
+            return True, o[2]
+    return False, None
+
+
 def roundtrip(ctx, dpt: type[DPTBase], payload: int | list[int], count: bool = True) -> None:
     """payload: int for DPTBinary types, list of octets otherwise."""
     vt = dpt.dpt_number_str()
     inp = {"dpt": dpt.__name__, "payload": payload}
-    # resolve by number may name a different class (generic main-number classes); use what the tool resolves
-    try:
-        res = drive(decode_dpt_payload(DecodeDptPayloadInput(payload=payload, value_type=vt)))
-    except DECLARED:
+    ok, v = decode_all_forms(ctx, dpt, vt, payload, inp, "image payload")
+    if not ok:
         if count:
             ctx.case(None, nontrivial=False, cls="image:payload-rejected")
         return
-    except Exception as e:  # noqa: BLE001 - decoding totality is C07's subject; keyed, not hidden
-        ctx.fail(f"C45:decode-exc:{exc_site(e)}", inp, f"{type(e).__name__}: {e}")
-        return
-    d = check_result(ctx, "decode_dpt_payload", res, inp)
-    if d is None:
-        return
-    v = d["value"]
-    try:
-        v_json = json.loads(json.dumps(v))
-    except Exception:  # noqa: BLE001 - already reported by check_result
-        return
     nontrivial = v not in (0, 0.0, False, "", None) and payload not in (0, [0] * (len(payload) if isinstance(payload, list) else 0))
     if count:
-        ctx.case((dpt.__name__, repr(payload)), nontrivial=nontrivial, cls="image:decoded")
+        raw0 = dpt.payload_type is DPTBinary and payload in (0, [0])
+        ctx.case((dpt.__name__, repr(payload)), nontrivial=nontrivial or raw0, cls=["image:decoded"] + (["image:binary-raw-0"] if raw0 else []))
+    # v already went through a JSON cycle; hand it to the encoder as a client would
     try:
-        enc = drive(encode_dpt_payload(EncodeDptPayloadInput(value=v_json, value_type=vt)))
+        enc = drive(encode_dpt_payload(EncodeDptPayloadInput(value=v, value_type=vt)))
     except ConversionError as e:
-        ctx.fail(f"C45:image-value-rejected:{dpt.__name__}", inp, f"decoded {v!r} (JSON form {v_json!r}) is refused by encode_dpt_payload: {e}"[:600])
+        ctx.fail(f"C45:image-value-rejected:{dpt.__name__}", inp, f"decoded {v!r} is refused by encode_dpt_payload: {e}"[:600])
         return
     except Exception as e:  # noqa: BLE001
         ctx.fail(f"C45:encode-exc:{exc_site(e)}", inp, f"decoded {v!r}: {type(e).__name__}: {e}"[:600])
@@ -228,16 +276,18 @@ def roundtrip(ctx, dpt: type[DPTBase], payload: int | list[int], count: bool = T
     e = check_result(ctx, "encode_dpt_payload", enc, inp)
     if e is None:
         return
-    p2 = e["payload"]
-    if isinstance(payload, int) != isinstance(p2, int):
-        ctx.fail(f"C45:payload-shape:{dpt.__name__}", inp, f"encoded payload {p2!r} has another shape than the decoded one {payload!r}")
+    # the encoder's own output, verbatim, after the JSON cycle of the whole result
+    p2 = json.loads(json.dumps(e))["payload"]
+    if isinstance(p2, bool) or not (isinstance(p2, int) or (isinstance(p2, list) and all(isinstance(b, int) and not isinstance(b, bool) for b in p2))):
+        ctx.fail("C45:encoded-payload-shape:encode_dpt_payload", inp, f"{dpt.__name__}: encoded payload {p2!r} is neither an int nor a list of ints")
         return
-    try:
-        res2 = drive(decode_dpt_payload(DecodeDptPayloadInput(payload=p2, value_type=vt)))
-    except Exception as ex:  # noqa: BLE001
-        ctx.fail(f"C45:reencoded-payload-rejected:{dpt.__name__}", inp, f"{v!r} -> {p2!r} -> {type(ex).__name__}: {ex}"[:600])
+    if (dpt.payload_type is DPTBinary) != isinstance(p2, int):
+        ctx.fail("C45:encoded-payload-shape:encode_dpt_payload", inp, f"{dpt.__name__}: encoded payload {p2!r} does not have the documented shape (int for 6-bit types, list of octets otherwise)")
         return
-    v2 = dataclasses.asdict(res2)["value"]
+    ok2, v2 = decode_all_forms(ctx, dpt, vt, p2, inp, f"payload {p2!r} emitted by encode_dpt_payload for {v!r}")
+    if not ok2:
+        ctx.fail(f"C45:reencoded-payload-rejected:{dpt.__name__}", inp, f"{v!r} -> encode -> {p2!r}, which decode_dpt_payload does not read back")
+        return
     if not same(v2, v):
         ctx.fail(f"C45:roundtrip-neq:{dpt.__name__}", inp, f"decode({payload!r}) = {v!r}; encode -> {p2!r}; decode -> {v2!r}")
 
